@@ -173,6 +173,13 @@ CONTROLS = [
         rep(IS, "Self::init(key, 1)", "Self::init(&key[..2], 1)"),
         rep(IS, "        Self::init(seed, 2)\n", "        Self::init(&seed, 2)\n"),
         rep(IS, "Ok(Self::init(seed, 2))", "Ok(Self::init(&seed, 2))")), ["C03", "C09", "C14"]),
+    ("fire", "S4f xoshiro256++ gains a public set_state", rep(X + "xoshiro256plusplus.rs", "impl Xoshiro256PlusPlus {\n", "impl Xoshiro256PlusPlus {\n    /// Overwrite the state words.\n    pub fn set_state(&mut self, s: [u64; 4]) {\n        self.s = s;\n    }\n\n"), ["C08"]),
+    ("fire", "S4f xoshiro256++ implements AsMut<[u64]>", rep(X + "xoshiro256plusplus.rs", "impl Xoshiro256PlusPlus {\n", "impl AsMut<[u64]> for Xoshiro256PlusPlus {\n    fn as_mut(&mut self) -> &mut [u64] {\n        &mut self.s\n    }\n}\n\nimpl Xoshiro256PlusPlus {\n"), ["C08"]),
+    ("silent", "S4 xoshiro256++ gains advance2 (two steps)", rep(X + "xoshiro256plusplus.rs", "impl Xoshiro256PlusPlus {\n", "impl Xoshiro256PlusPlus {\n    /// Discard two outputs.\n    pub fn advance2(&mut self) {\n        self.next_u64();\n        self.next_u64();\n    }\n\n"), ["C08", "C07", "C14"]),
+    ("silent", "S5 IsaacRng implements Iterator through next_u32", rep(IS, "impl RngCore for IsaacRng {", "impl Iterator for IsaacRng {\n    type Item = u32;\n\n    #[inline]\n    fn next(&mut self) -> Option<u32> {\n        Some(self.next_u32())\n    }\n}\n\nimpl RngCore for IsaacRng {"), ["C03", "C05", "C10", "C14"]),
+    ("fire", "S5f IsaacRng gains skip_block() driving generate_and_set", rep(IS, "impl RngCore for IsaacRng {", "impl IsaacRng {\n    /// Drop the rest of the current block.\n    pub fn skip_block(&mut self) {\n        self.0.generate_and_set(1);\n    }\n}\n\nimpl RngCore for IsaacRng {"), ["C03"]),
+    ("silent", "S5 Xoshiro256PlusPlus gains an inherent from_seed that forwards", rep(X + "xoshiro256plusplus.rs", "impl Xoshiro256PlusPlus {\n", "impl Xoshiro256PlusPlus {\n    /// Same as `SeedableRng::from_seed`.\n    pub fn from_seed(seed: [u8; 32]) -> Self {\n        <Self as SeedableRng>::from_seed(seed)\n    }\n\n"), ["C09"]),
+    ("silent", "S5 JitterRng gains rounds() accessor", rep(J, "    pub fn set_rounds(&mut self, rounds: u8) {", "    pub fn rounds(&self) -> u8 {\n        self.rounds\n    }\n\n    /// Configures how many rounds are used to generate each 64-bit value.\n    pub fn set_rounds(&mut self, rounds: u8) {"), ["C16", "C12", "C14", "C17"]),
     ("silent", "S2 xoshiro256++ state accessor added", rep(X + "xoshiro256plusplus.rs", "impl Xoshiro256PlusPlus {\n", "impl Xoshiro256PlusPlus {\n    /// Number of state words.\n    pub fn state_words(&self) -> usize {\n        self.s.len()\n    }\n\n"), ["C14", "C19", "C18", "C10"]),
 ]
 
